@@ -69,6 +69,10 @@ def c07(tier, seed):
     out.append(_c('shrink-memb', 'memb', 'plain', 'resize', 'C07',
                   ['--rounds=%d' % (60 * s), '--res-calls=40', '--walk=2', '--cont=1', '--upd=1', '--sig=1', '--walk-delay=0.02',
                    '--tun-commit-order=2', '--tun-part-order=3'], scale=s))
+    # same, every table on the guard-page allocator, three walkers, no hook delays (shortest release latency)
+    out.append(_c('shrink-memb-guard', 'memb', 'plain', 'resize', 'C07',
+                  ['--rounds=%d' % (100 * s), '--res-calls=40', '--walk=3', '--cont=0', '--upd=1', '--walk-delay=0.05', '--alloc=1',
+                   '--hook-prob=0', '--tun-commit-order=2', '--tun-part-order=3'], scale=s))
     out.append(_c('shrink-qsbr', 'qsbr', 'plain', 'resize', 'C07',
                   ['--rounds=%d' % (48 * s), '--res-calls=40', '--walk=2', '--cont=1', '--upd=1', '--walk-delay=0.02',
                    '--tun-commit-order=2', '--tun-part-order=3'], scale=s))
@@ -147,6 +151,9 @@ def c09(tier, seed):
     rz('resize-memb-asan', 'memb', 'asan', 20, 25)
     rz('resize-qsbr-asan', 'qsbr', 'asan', 24, 25)
     rz('resize-memb-tsan', 'memb', 'tsan', 20, 12)
+    out.append(_c('shrink-memb-guard', 'memb', 'plain', 'resize', 'C09',
+                  ['--rounds=%d' % (60 * s), '--res-calls=40', '--res=1', '--walk=3', '--cont=0', '--upd=1', '--walk-delay=0.05',
+                   '--alloc=1', '--hook-prob=0', '--tun-commit-order=2', '--tun-part-order=3'], scale=s))
     out.append(_c('big-memb', 'memb', 'plain', 'big', 'C09', ['--rounds=%d' % (9 * s), '--res-calls=10', '--res=2', '--upd=2',
                                                               '--resident=1', '--walk=1'], cpus=8, scale=s))
     out.append(_c('big-qsbr', 'qsbr', 'plain', 'big', 'C09', ['--rounds=%d' % (6 * s), '--res-calls=8', '--res=1', '--upd=2',
